@@ -49,6 +49,7 @@ struct Tally {
     cand_judged: u64,
     cand_curled: u64,
     long_words: u64,
+    parts_after_slip: u64,
 }
 
 /// Clause A: lonely(lead+word+trail) == avro(lead)+avro(word)+avro(trail)
@@ -57,7 +58,32 @@ fn judge_parts(c: &Ctxs, o: &PhonOracle, which: usize, lead: &str, word: &str, t
     let sess = &c.lonely[which % c.lonely.len()];
     t.events += text.len() as u64;
     let case = || json!({"clause": "parts", "cfg": sess.spec.to_json(), "lead": lead, "word": word, "trail": trail});
-    let got = match type_finish(sess, &text) {
+    // every fifth text is reached by a slip: one more character (a back-tick, a letter, a colon, a full stop or a
+    // back-slash, in rotation) is typed after it and erased again; what the backspace returns is then the single string
+    // of the text that is left
+    let h = fnv_str(&[&text]) as usize;
+    let slip: Option<char> = if h % 5 == 0 { Some(['`', 'k', ':', '.', '\\'][(h / 5) % 5]) } else { None };
+    let typed = match slip {
+        None => type_finish(sess, &text),
+        Some(x) => (|| {
+            sess.type_text_protocol(&text)?;
+            sess.key(kc(x), 0, 0)?;
+            let s = sess.bs(false)?;
+            sess.finish()?;
+            Ok(s)
+        })(),
+    };
+    if slip.is_some() {
+        t.parts_after_slip += 1;
+    }
+    let case = || {
+        let mut c = case();
+        if let Some(x) = slip {
+            c["then_typed_and_erased"] = json!(x.to_string());
+        }
+        c
+    };
+    let got = match typed {
         Ok(s) if s.is_lonely() => s.get_lonely_suggestion().to_string(),
         Ok(_) => {
             out.violation("transliteration-of-parts", "c03:parts:list-with-suggestions-off".into(), case(), "a single string".into(), "a list".into());
@@ -288,6 +314,7 @@ impl Prop for C03 {
         out.count("evaluations", t.events);
         out.count("parts_judged", t.parts_judged);
         out.count("parts_with_wrapping", t.parts_wrapped);
+        out.count("parts_reached_by_typing_one_more_character_and_erasing_it", t.parts_after_slip);
         out.count("candidate_judged", t.cand_judged);
         out.count("candidate_found_only_after_uncurling", t.cand_curled);
     }
